@@ -7,6 +7,70 @@ Local Open Scope N_scope.
 Lemma generated_table_covers : covers tbl = true.
 Proof. vm_compute. reflexivity. Qed.
 
+(* instance obligations on the regenerated effective-permission rule of evaluate() *)
+Lemma generated_eval_perm_never_widens : forall a s e,
+  eval_perm a (Some s) = Some e -> subset_bits e s = true.
+Proof.
+  intros a s e. unfold eval_perm, subset_bits. destruct a as [a|]; intros [= <-].
+  - rewrite <- N.land_assoc, N.land_diag. apply N.eqb_refl.
+  - rewrite N.land_diag. apply N.eqb_refl.
+Qed.
+
+Lemma generated_eval_perm_scope_never_dropped : forall a s, eval_perm a (Some s) <> None.
+Proof. intros a s. unfold eval_perm. destruct a; discriminate. Qed.
+
+Lemma generated_eval_perm_respects_argument : forall a s e,
+  eval_perm (Some a) s = Some e -> subset_bits e a = true.
+Proof.
+  intros a s e. unfold eval_perm, subset_bits. destruct s as [s|]; intros [= <-].
+  - rewrite (N.land_comm a s), <- N.land_assoc, N.land_diag. apply N.eqb_refl.
+  - rewrite N.land_diag. apply N.eqb_refl.
+Qed.
+
+Lemma generated_eval_perm_empty_set_is_enforced : forall s, eval_perm (Some 0) s = Some 0.
+Proof. intros [s|]; unfold eval_perm; [rewrite N.land_0_l|]; reflexivity. Qed.
+
+(* evaluate(code, permission=arg) under enclosing scopes: whatever is enforced is within the
+   outermost enclosing scope AND within the argument; the empty set is enforced, not ignored.
+   (Stated on [eval_perm] as regenerated from the current execution.py.) *)
+Lemma evaluate_never_widens_scope : forall arg p ps e,
+  eval_perm arg (scope_nest None (p :: ps)) = Some e -> subset_bits e p = true.
+Proof. intros arg p ps e. rewrite scope_outermost_wins. apply generated_eval_perm_never_widens. Qed.
+
+Lemma evaluate_respects_argument : forall a s e, eval_perm (Some a) s = Some e -> subset_bits e a = true.
+Proof. exact generated_eval_perm_respects_argument. Qed.
+
+Lemma evaluate_enforced_when_any_permission_given : forall a s,
+  eval_perm (Some a) s <> None /\ eval_perm None (Some a) <> None /\ eval_perm (Some 0) s = Some 0.
+Proof.
+  intros a s. split; [|split].
+  - unfold eval_perm. destruct s; discriminate.
+  - apply generated_eval_perm_scope_never_dropped.
+  - apply generated_eval_perm_empty_set_is_enforced.
+Qed.
+
+(* End to end: a named construct at any depth whose flag is missing from the argument or from the
+   outermost enclosing scope makes evaluate() refuse the program. *)
+Lemma evaluate_refuses : forall arg scopes t n f,
+  subnode n t -> In (kind n, f) required_pairs ->
+  (exists a, arg = Some a /\ N.testbit a f = false) \/ (exists p ps, scopes = p :: ps /\ N.testbit p f = false) ->
+  evaluate_accepts tbl arg scopes t = false.
+Proof.
+  intros arg scopes t n f Hs Hr Hw. unfold evaluate_accepts.
+  destruct (eval_perm arg (scope_nest None scopes)) as [e|] eqn:He.
+  - apply validate_false_iff. exists n. split; [exact Hs|]. exists f. split.
+    + eapply covers_spec; eauto using generated_table_covers.
+    + unfold perm_of_bits. destruct (N.testbit e f) eqn:Ht; [|reflexivity]. exfalso.
+      destruct Hw as [[a [-> Ha]] | [p [ps [-> Hp]]]].
+      * apply generated_eval_perm_respects_argument in He.
+        rewrite (testbit_subset _ _ _ He Ht) in Ha. discriminate.
+      * rewrite scope_outermost_wins in He. apply generated_eval_perm_never_widens in He.
+        rewrite (testbit_subset _ _ _ He Ht) in Hp. discriminate.
+  - exfalso. destruct Hw as [[a [-> Ha]] | [p [ps [-> Hp]]]].
+    + revert He. unfold eval_perm. destruct (scope_nest None scopes); discriminate.
+    + rewrite scope_outermost_wins in He. eapply generated_eval_perm_scope_never_dropped; eauto.
+Qed.
+
 (* non-vacuity: a For loop nested in a function body inside a class, LOOP withheld *)
 Example nonvacuous :
   let t := Node k_ClassDef [Node k_FunctionDef [Node k_For [Node k_Name []]]] in
